@@ -42,6 +42,9 @@ func main() {
 	case "mw":
 		// harness mw <tier> <seed> <workdir> <govalid> <repo>
 		mwMain(os.Args[2:])
+	case "helpers-race":
+		// harness helpers-race <tier> <workdir> <repo>
+		hraceMain(os.Args[2:])
 	case "rec-one":
 		// harness rec-one <fn> <hex>
 		recOne(os.Args[2], os.Args[3])
